@@ -32,6 +32,13 @@ def jobs(tier):
         for (n, k) in ((1, 1), (2, 1), (1, 2), (2, 2)):
             A(lambda t=t, n=n, k=k: L.WbSharedInst(n, k, t, alphabet=L.wb_alphabet(n, k, 1)))
     A(lambda: L.WbSharedInst(1, 2, 2, reg=True, alphabet=L.wb_alphabet(1, 2, 1)))
+    # wide buses: the forced read data must be all ones on the FULL dat_r width (64/128 bit)
+    wide_s = lambda dw: [(0, 0, 0), (0, 0, 1 << (dw - 1)), (1, 0, (0xa5 << (dw - 8)) | 0x3c), (0, 1, 0)]
+    A(lambda: L.WbTimeoutInst(2, dw=64, dats=(0, (0xa5 << 56) | 0x3c)))
+    A(lambda: L.WbTimeoutInst(1, dw=128, dats=(0, (0xa5 << 120) | 0x3c)))
+    A(lambda: L.WbSharedInst(1, 1, 2, dw=64, alphabet=L.wb_alphabet(1, 1, 1, s_parts=wide_s(64))))
+    A(lambda: L.WbSharedInst(2, 2, 3, dw=64, alphabet=L.wb_alphabet(2, 2, 1, s_parts=wide_s(64)[:3])))
+    A(lambda: L.WbSharedInst(2, 1, 1, dw=128, reg=True, alphabet=L.wb_alphabet(2, 1, 1, s_parts=wide_s(128))))
     A(lambda: L.WbSharedInst(2, 1, None, alphabet=L.wb_alphabet(2, 1, 1)))
     for t in (1, 3):
         A(lambda t=t: L.WbSharedInst(1, 1, t, kind="xbar", alphabet=L.wb_alphabet(1, 1, 1)))
@@ -42,6 +49,8 @@ def jobs(tier):
         for t in (1, 2, 3):
             for d in ("w", "r"):
                 A(lambda full=full, t=t, d=d: L.AxTimeoutInst(full, t, direction=d))
+        A(lambda full=full: L.AxTimeoutInst(full, 2, dw=64, direction="r"))       # forced R data on 64/128 bit
+        A(lambda full=full: L.AxTimeoutInst(full, 1, dw=128, direction="r"))
     # The composed AXI netlists evaluate at < 1000 cycles/s and the lock counters (0..255) multiply the state
     # space, so the product is explored breadth-first up to a transition budget (all states within a few
     # outstanding requests of reset: every timer value x FSM state x grant x select is reached long before).
@@ -102,6 +111,11 @@ def jobs(tier):
         B(lambda t=t: L.AxSharedInst(False, 2, 2, t, dw=32))
         B(lambda t=t: L.AxSharedInst(True, 2, 2, t, dw=32))
     B(lambda: L.WbSharedInst(3, 3, 16, dw=32, sh=4, reg=True))
+    B(lambda: L.WbTimeoutInst(16, dw=64))
+    B(lambda: L.WbSharedInst(2, 2, 16, dw=64, sh=4))
+    B(lambda: L.WbSharedInst(2, 2, 100, dw=128, sh=4))
+    B(lambda: L.AxTimeoutInst(True, 16, dw=128), cycles=4000 if quick else 40000)
+    B(lambda: L.AxSharedInst(True, 2, 2, 16, dw=64))
     B(lambda: L.WbSharedInst(2, 2, 16, dw=32, sh=4, kind="xbar"))
     B(lambda: L.AxTimeoutInst(True, 16, dw=32), cycles=8000 if quick else 80000)
     B(lambda: L.AxSharedInst(False, 3, 2, 16, dw=64))
@@ -120,16 +134,18 @@ def soc_cases(ctx):
     n = 0
     touts = 0
     for std in ("wishbone", "axi-lite", "axi"):
-        for t in ((16,) if quick else (16, 100, 128)):
+        for (t, dw) in (((16, 32), (16, 64)) if quick else ((16, 32), (100, 32), (128, 32), (16, 64), (100, 64))):
             for rep in range(1 if quick else 3):
-                seed = ctx.seed * 1009 + 17 * t + rep
-                problems, k = L.soc_scenario(std, "shared", t, random.Random(seed), nops=12 if quick else 30)
+                seed = ctx.seed * 1009 + 17 * t + rep + dw
+                problems, k = L.soc_scenario(std, "shared", t, random.Random(seed), nops=12 if quick else 30, dw=dw)
                 n += 1
                 touts += k
-                ctx.cov.count("soc-timeouts/" + std, k)
+                ctx.cov.count("soc-timeouts/%s/%db" % (std, dw), k)
                 if problems:
-                    out.append({"kind": "soc-scenario", "instance": "SoCMini(%s,shared,bus_timeout=%d)" % (std, t),
-                                "std": std, "t": t, "seed": seed, "nops": 12 if quick else 30, "problems": problems[:5]})
+                    out.append({"kind": "soc-scenario",
+                                "instance": "SoCMini(%s,shared,bus_timeout=%d,bus_data_width=%d)" % (std, t, dw),
+                                "std": std, "t": t, "dw": dw, "seed": seed, "nops": 12 if quick else 30,
+                                "problems": problems[:5]})
     ctx.cov.add_cases("SoCMini + tb master: unmapped/RAM access sequences, exact termination latency, error indication, "
                       "bus_errors CSR (oracle only)", n, touts, exhaustive=False)
     return out
@@ -258,9 +274,9 @@ def search(ctx, disagreements, proof_info):
             return _fmt(inst, best, r[1] if r else d.kind[8:])
     for d in disagreements:
         if isinstance(d, dict) and d.get("kind") == "soc-scenario":
-            return {"instance": d["instance"], "scenario": {k: d[k] for k in ("std", "t", "seed", "nops")},
+            return {"instance": d["instance"], "scenario": {k: d[k] for k in ("std", "t", "dw", "seed", "nops")},
                     "monitor": "; ".join(d["problems"]),
-                    "letter_format": "replay: c11lib.soc_scenario(std, 'shared', t, random.Random(seed), nops)"}
+                    "letter_format": "replay: c11lib.soc_scenario(std, 'shared', t, random.Random(seed), nops, dw)"}
         if isinstance(d, dict) and d.get("kind") == "monitor":
             return {"instance": d["instance"], "monitor": d["monitor"], "letter_format": "c11lib.measure_env"}
     return generic_search(ctx, mach, all_jobs, FMT)
@@ -290,7 +306,8 @@ def replay(ctx, payload):
     if fi.get("scenario"):
         import random
         sc = fi["scenario"]
-        problems, _ = L.soc_scenario(sc["std"], "shared", sc["t"], random.Random(sc["seed"]), nops=sc["nops"])
+        problems, _ = L.soc_scenario(sc["std"], "shared", sc["t"], random.Random(sc["seed"]), nops=sc["nops"],
+                                     dw=sc.get("dw", 32))
         for p in problems:
             print(p)
         if problems:
